@@ -38,6 +38,20 @@ def gen_cases(rng, tier):
         w = rng.choice([8, 16, 3, 12, 32])
         k = rng.randrange(0, 9)
         yield {'op': 'array', 'w': w, 'items': [rng.randrange(1 << w) for _ in range(k)], 'trail': rand_bits(rng, rng.choice([0, 0, 1, 5]))}
+    # a BytesIO that has been used before (read from, positioned at its end as after writing, or already given to a constructor): its whole content counts
+    for _ in range(30 if tier == 'quick' else 400):
+        nb = rng.choice([1, 2, 3, 5]); src = [rng.randrange(256) for _ in range(nb)]; T = 8 * nb
+        yield {'op': 'window', 'src': src, 'offset': rng.choice([None, None, 0, 3, 8]), 'length': rng.choice([None, None, 4, T - 8]), 'via': 'bytesio', 'cls': rng.choice(CLASSES),
+               'pre': rng.choice(['read1', 'end', 'twice', 'seek1'])}
+    # files whose size is a multiple of the memory-mapping granularity (or one byte off), windows at and around the very end (the empty window included)
+    import mmap as _mmap, random as _rnd
+    G = _mmap.ALLOCATIONGRANULARITY
+    for size in ([G, 2 * G] if tier == 'quick' else [G - 1, G, G + 1, 2 * G, 3 * G]):
+        src = list(_rnd.Random(size).randbytes(size))
+        for off in (8 * size, 8 * size - 8, 8 * size - 3, 8 * G, 8 * G + 5, 8 * size + 1):
+            for ln in (None, 0, 3):
+                if tier == 'quick' and rng.random() < 0.4: continue
+                yield {'op': 'window', 'src': src, 'offset': off, 'length': ln, 'via': rng.choice(['filename', 'handle']), 'cls': rng.choice(CLASSES)}
     yield {'op': 'chunkconst'}
     # tofile itself, run with its chunk constant replaced by a small one (the code object is re-instantiated with the constant swapped):
     # lengths below, at, and above exact multiples of the chunk size
@@ -82,7 +96,14 @@ def run_impl(c):
             bitstring.options.lsb0 = bool(c.get('lsb0'))      # the selected window of the source is the same stored bits in both numberings (reset by the driver)
             if via == 'bytes': return C(bytes=src, **kw).bin
             if via == 'bytearray': return C(bytes=bytearray(src), **kw).bin
-            if via == 'bytesio': return C(io.BytesIO(src), **kw).bin
+            if via == 'bytesio':
+                bio = io.BytesIO(src)
+                pre = c.get('pre')
+                if pre == 'read1': bio.read(1)
+                elif pre == 'seek1': bio.seek(1)
+                elif pre == 'end': bio.seek(0, 2)
+                elif pre == 'twice': C(bio, **kw)
+                return C(bio, **kw).bin
             if via == 'bitarray':
                 ba = bitarray.bitarray(); ba.frombytes(src); return C(bitarray=ba, **kw).bin
             fd, path = tempfile.mkstemp(prefix='verif_c17_')
@@ -216,6 +237,7 @@ def coq_check(c, obs):
     if op == 'cutbytes':
         return f"res_eqb zlist_eqb (tofile2 {cbits(c['bits'])} {cz(c['chunk'])}) {cres(obs, lambda l: clist(l, cz))}"
     if op == 'window':
+        if len(c['src']) > 256: return None          # page-sized sources: implementation against the window oracle only
         L, O = cob(c['length']), cob(c['offset'])
         bits = ''.join(format(x, '08b') for x in c['src'])
         if c['via'] in ('bytes', 'bytearray'): return f"rbits_eqb (setbytes_with_truncation {cbits(bits)} {L} {O}) {cres(obs, cbits)}"
